@@ -129,7 +129,7 @@ class Check(CheckBase):
         return d
 
     def cases(self, tier):
-        cs = [{"label": "int32"}, {"label": "var8"}, {"label": "motors_enable"}, {"label": "motors_query"},
+        cs = [{"label": "int32"}, {"label": "int32/after-two-int32-writes", "split_depth": 5}, {"label": "int32/after-int32-and-byte-write", "split_depth": 5}, {"label": "var8"}, {"label": "motors_enable"}, {"label": "motors_query"},
               {"label": "motors_enable/after-earlier-requests-and-power-cycle", "split_depth": 6, "pmax": 2 if tier == "quick" else 5}]
         if tier == "thorough":
             cs.append({"label": "motors_enable/after-earlier-requests", "split_depth": 6, "pmax": 2})
@@ -157,6 +157,24 @@ class Check(CheckBase):
             run.prove(label + ":no-exception", z3.BoolVal(False), info={"raised": repr(ex)[:200]})
 
     def body(self, run, case, obj, board, port, label):
+        if label.startswith("int32/after-"):
+            # history on one object: two earlier writes at arbitrary (possibly overlapping) slots, then the step proper
+            v0 = run.int("value0", -I32, I32 - 1)
+            s0 = run.int("slot0", 0, 28)
+            obj.var_write_int32(v0, s0)
+            if label.endswith("byte-write"):
+                v1 = run.int("value1", 0, 255)
+                s1 = run.int("slot1", 0, 31)
+                obj.var_write(v1, s1)
+            else:
+                v1 = run.int("value1", -I32, I32 - 1)
+                s1 = run.int("slot1", 0, 28)
+                obj.var_write_int32(v1, s1)
+            if obj.err is not None or board.bad:
+                run.prove("int32:history:earlier-writes-succeed", z3.BoolVal(False), info={"err": str(obj.err)[:200], "bad": board.bad})
+                return
+            board.ram0 = board.ram
+            label = "int32"
         if label == "int32":
             v = run.int("value", -I32, I32 - 1)
             s = run.int("slot", 0, 28)
@@ -320,6 +338,13 @@ class Check(CheckBase):
         port = FakePort(on_write=b.on_write)
         obj.port = port
         try:
+            if label.startswith("int32/after-"):
+                obj.var_write_int32(int(i["value0"]), int(i["slot0"]))
+                if label.endswith("byte-write"):
+                    obj.var_write(int(i["value1"]), int(i["slot1"]))
+                else:
+                    obj.var_write_int32(int(i["value1"]), int(i["slot1"]))
+                label = "int32"
             if label == "int32":
                 v, s = int(i["value"]), int(i["slot"])
                 ok = obj.var_write_int32(v, s)
